@@ -108,7 +108,7 @@ fn list_files(dir: &Path) -> Vec<PathBuf> {
 /// Run the libFuzzer phase for `targets`; `mk_case` wraps (entry, payload) into the property's replay case.
 pub fn phase(run: &mut Run, targets: &[&str], mk_case: &dyn Fn(u8, &[u8]) -> Value) {
     let secs = budget(run);
-    if secs == 0 {
+    if secs == 0 || run.violations.iter().any(|v| v.violation.kind.starts_with("hang")) {
         return;
     }
     let bins = match build() {
